@@ -437,7 +437,7 @@ def r7_independence(ctx):
                         bad.add(('branch', method(s[1])))
         ctx.ob(rule, name, 'placement/rights/ep arguments independent of clocks, turn, key and repetition state', not bad,
                found=sorted(bad), expected=[], why='the successor position may depend only on the move and the pieces it touches')
-    ctx.floor(rule, 'mutator call instances examined', n, 30)
+    ctx.floor(rule, 'mutator call instances examined', n, 15)
 
 
 def r8_dispatch(ctx):
